@@ -17,6 +17,29 @@ impl Check for C03 {
         "C03"
     }
 
+    fn declared_probes(&self) -> Vec<&'static str> {
+        vec![
+            "fault.capacity-shrink",
+            "fault.operand-starve",
+            "fault.pause-rebuild-resume",
+            "fault.step-budget-cut",
+            "probe.deep-nesting-fully-unwrapped",
+            "probe.deep-nesting-run",
+            "probe.deep-nesting>200",
+            "probe.fatal-error",
+            "probe.long-run",
+            "probe.long-run-of-millions-of-steps",
+            "probe.long-run-output>64KiB",
+            "probe.long-run-without-exact-prediction",
+            "probe.model-allowed-set-wider-than-one",
+            "probe.real-loop-fatal",
+            "probe.real-loop-runs",
+            "probe.recoverable-error",
+            "probe.skip-equals-noop-compared",
+            "probe.whole-vs-chunked-evaluation",
+        ]
+    }
+
     fn rule(&self) -> String {
         "seeded loop- and growth-biased Push programs (block duplication, exec dup/swap/push, nesting <= 8 generated structurally plus the whole program wrapped 65..=1200 blocks deep in 1/200 of the runs, i64/f64 extremes, \
          capacities 0..=12 / 64, all inputs bound) run harness-stepped (<= 400 steps + nesting depth) and by the real loop for a sweep of \
